@@ -242,12 +242,15 @@ class DashValidator(DashElement):
             self.attrs.check_equal(
                 self.prev_manifest.availabilityStartTime, self.manifest.availabilityStartTime,
                 template=r'availabilityStartTime has changed from {} to {}')
-            age = self.manifest.publishTime - self.prev_manifest.publishTime
-            fmt = (r'Manifest should have updated by now. minimumUpdatePeriod is {0} but ' +
-                   r'manifest has not been updated for {1} seconds')
-            self.attrs.check_less_than(
-                age, 3 * self.manifest.minimumUpdatePeriod,
-                fmt.format(self.manifest.minimumUpdatePeriod, age.total_seconds()))
+            if (self.manifest.minimumUpdatePeriod is not None and
+                    self.manifest.publishTime is not None and
+                    self.prev_manifest.publishTime is not None):
+                age = self.manifest.publishTime - self.prev_manifest.publishTime
+                fmt = (r'Manifest should have updated by now. minimumUpdatePeriod is {0} but ' +
+                       r'manifest has not been updated for {1} seconds')
+                self.attrs.check_less_than(
+                    age, 3 * self.manifest.minimumUpdatePeriod,
+                    fmt.format(self.manifest.minimumUpdatePeriod, age.total_seconds()))
         await self.manifest.validate()
         if self.options.save and self.options.prefix:
             kids = set()
